@@ -48,6 +48,9 @@ structure DState where
   tainted : Bool := false
   /-- `fault k n` arms an injected I/O fault for the operation that follows -/
   pending : Option Eng.Fault := none
+  /-- `crash k n` arms a process death inside the operation that follows -/
+  pendingCrash : Option (Nat × Nat) := none
+  fdBackend : Bool := true
 
 def replyStr : Meta.Reply → String
   | .exists_ => "EXISTS" | .created => "CREATED" | .rolled => "ROLLED" | .node => "NODE"
@@ -180,6 +183,7 @@ def fmtOut : Eng.Out → String
   | .names l => "[" ++ ",".intercalate ((l.toArray.qsort (· < ·)).toList.map toString) ++ "]"
   | .trk none => "none"
   | .trk (some f) => s!"{f.locked},{f.ckpt},{f.total},{if f.fully then 1 else 0}"
+  | .crashed => "crashed"
   | .trks l => ";".intercalate (((l.toArray.qsort (fun a b => a.1 < b.1)).toList).map fun (n, o) =>
       match o with
       | none => s!"{n}=none"
@@ -212,24 +216,32 @@ def parseEngOp (st : DState) (toks : List String) : Option Eng.Op :=
 
 def handleEng (st : DState) (toks : List String) : Option (DState × String) :=
   match toks with
-  | ["eng", "cfg", g, m, _backend] =>
+  | ["eng", "cfg", g, m, backend] =>
     match parseMode m with
     | some mode =>
       let cfg := if g = "small" then Eng.smallCfg else Eng.realCfg
-      some ({ st with cfg := cfg, mode := mode, proc := {}, aeng := none, opens := 0, tainted := false }, "ok")
+      some ({ st with cfg := cfg, mode := mode, proc := {}, aeng := none, opens := 0, tainted := false,
+                      fdBackend := backend == "fd", pending := none, pendingCrash := none }, "ok")
     | none => some (st, "bad-op")
   | ["eng", "fault", k, n] =>
     match k.toNat?, n.toNat? with
     | some kk, some nn => some ({ st with pending := some ⟨kk, nn⟩ }, "ok")
     | _, _ => some (st, "bad-op")
+  | ["eng", "crash", k, n] =>
+    match k.toNat?, n.toNat? with
+    | some kk, some nn => some ({ st with pendingCrash := some (kk, nn) }, "ok")
+    | _, _ => some (st, "bad-op")
   | "eng" :: rest =>
     match parseEngOp st rest with
     | some op0 =>
-      let op : Eng.Op := match st.pending, op0 with
+      let op1 : Eng.Op := match st.pending, op0 with
         | some f, .append t pay => .appendF t pay f
         | some f, .batch t ps => .batchF t ps f
         | _, o => o
-      let st := { st with pending := none }
+      let op : Eng.Op := match st.pendingCrash with
+        | some (k, n) => .crashAt k n st.fdBackend op1
+        | none => op1
+      let st := { st with pending := none, pendingCrash := none }
       let (p, o) := Eng.step st.cfg st.proc op
       let q := Eng.fires st.cfg st.proc op
       let pre := if q.isEmpty then "" else "#quirk " ++ ",".intercalate q ++ "\n"
@@ -242,7 +254,9 @@ def handleEng (st : DState) (toks : List String) : Option (DState × String) :=
         | .batchF t _ _, some i0, some i1 => decide ((i1.reader t).chain.length > (i0.reader t).chain.length) || (i0.writers.get? t).isNone
         | _, _, _ => false
       let faultFired : Bool := faulted && (match o with | .err .other => true | _ => false)
-      let aop : Option AEng.AOp := match op with
+      let crashedNow : Bool := match o with | .crashed => true | _ => false
+      let inner : Eng.Op := match op with | .crashAt _ _ _ x => x | x => x
+      let aop : Option AEng.AOp := match inner with
         | .append t pay => some (.append t pay)
         | .batch t ps => some (.batch t ps)
         | .appendF t pay _ => if faultFired then none else some (.append t pay)
@@ -266,7 +280,7 @@ def handleEng (st : DState) (toks : List String) : Option (DState × String) :=
         | none => none
       let isOpen := st.proc.inst.isSome
       let (aeng, opens, apre) : Option AEng.AState × Nat × String :=
-        match op with
+        match inner with
         | .open_ _ =>
           if st.opens = 0 then (some {}, 1, "")
           else if isOpen then (reopened, st.opens + 1, "")           -- open on a live instance = close + open
@@ -275,7 +289,8 @@ def handleEng (st : DState) (toks : List String) : Option (DState × String) :=
         | .restart => (if isOpen then reopened else st.aeng, st.opens, "")
         | .kill => (none, st.opens, "")
         | _ =>
-          if q.contains "sealThenAllocFail" then (none, st.opens, "")
+          if crashedNow then (none, st.opens, "")
+          else if q.contains "sealThenAllocFail" then (none, st.opens, "")
           else if faultFired && rotated then (none, st.opens, "")
           else if !isOpen then (st.aeng, st.opens, "")
           else match st.aeng, aop with
